@@ -350,6 +350,28 @@ def rule_r9(ctx):
         raise AnalysisBroken("ws_read_frame_cb: control-frame cases not found (%d)" % seen)
 
 
+
+def rule_r10(ctx):
+    r = ctx.rule("C16.R10", "T3", "a request the server refuses itself is either the last one on its connection or has its body "
+                 "accounted for: in http_sconn_rxdone every http_sconn_error with a constant status is dominated by sc->close = "
+                 "true or by the Content-Length accounting (store to unconsumed_body) -- otherwise the refused request's body is "
+                 "read as the next request", floor=5)
+    f = ctx.prog.need("http_sconn_rxdone", "http/http_server.c")
+    errs = [c for c in f.calls("http_sconn_error") if len(c.node["args"]) > 1 and const_of(f.expand(c.node["args"][1])) is not None]
+    closes = G.positions(G.stores(f, "close", value="nonnull"))
+    acct = G.positions(t for t in G.stores(f, "unconsumed_body"))
+    if not errs or not acct:
+        raise AnalysisBroken("http_sconn_rxdone: error responses / body accounting not found")
+    for c in errs:
+        if f.dominated_by((c.b, c.i), blocked=lambda b, i, e: (b, i) in closes) or \
+                f.dominated_by((c.b, c.i), blocked=lambda b, i, e: (b, i) in acct):
+            r.ob(f, "error response line %s: connection closing or body accounted" % c.line)
+        else:
+            ctx.fail(r, f, "request refused with its body unaccounted on a kept connection", c.line,
+                     "http_sconn_error at line %s answers a request without closing the connection and before Content-Length was "
+                     "recorded in unconsumed_body: the body bytes that follow are parsed and served as a new request" % c.line)
+
+
 def run(ctx):
     ctx.guard(rule_r1)
     ctx.guard(rule_r2)
@@ -357,6 +379,7 @@ def run(ctx):
     ctx.guard(rule_r4)
     ctx.guard(rule_r7)
     ctx.guard(rule_r9)
+    ctx.guard(rule_r10)
     ctx.guard(c11.rule_ws)
     for rr in ctx.rules:
         if rr.id == "C11.R7":
